@@ -6,6 +6,7 @@ import (
 	"fmt"
 	"math/rand"
 	"os"
+	"runtime/debug"
 	"sort"
 	"strings"
 
@@ -145,7 +146,8 @@ func failingUpdate(d *document.Document, es []gen.Edit, j int, how string, pres 
 		d.SchemaRules = []types.Rule{{Path: "$.guard", Type: "string"}}
 	case "size":
 		ds := d.DocSize()
-		d.MaxSizeLimit = ds.Total()
+		// a limit of 0 means "no limit"; an empty document has total size 0
+		d.MaxSizeLimit = max(1, ds.Total())
 	}
 	return d.Update(func(root *yjson.Object, p *presence.Presence) error {
 		if pres != nil {
@@ -215,6 +217,10 @@ func (w *c08Worker) run(res *runner.CaseResult, seed int64, idx int) {
 		_ = lp.deliver(lp.S, lp.P)
 	}
 	cloneRoot := func(where string) bool {
+		if bad := textIndexProblem(A.S); bad != "" {
+			viol("text-index-corrupt", where+": "+bad)
+			return false
+		}
 		res.AddStat("clone_root_comparisons", 1)
 		if r, m := A.S.Root().Marshal(), A.S.Marshal(); r != m {
 			viol("clone-differs-from-root", fmt.Sprintf("%s: Root() shows %s but the document is %s", where, r, m))
@@ -329,7 +335,7 @@ func (w *c08Worker) run(res *runner.CaseResult, seed int64, idx int) {
 				if errors.Is(eA, gen.ErrUnresolvable) && errors.Is(eB, gen.ErrUnresolvable) {
 					continue
 				}
-				viol("valid-update-failed", fmt.Sprintf("%v: subject err=%v, twin err=%v", describe(es), eA, eB))
+				viol("valid-update-failed", fmt.Sprintf("%v: subject err=%v, twin err=%v\ntexts of the subject (document / working copy): %s", describe(es), eA, eB, dumpTexts(A.S)))
 				return
 			}
 			sa, sb := snapState(A.S), snapState(B.S)
@@ -370,6 +376,16 @@ func dumpTexts(d *document.Document) string {
 	for k, el := range d.Root().Object.Members() {
 		if t, ok := el.(*crdt.Text); ok {
 			fmt.Fprintf(&sb, "clone.%s=%s ", k, t.ToTestString())
+			if os.Getenv("VERIF_STACK") != "" {
+				for _, n := range t.Nodes() {
+					fmt.Fprintf(&sb, "<%s insPrev=%v> ", n.ID().ToTestString(), func() string {
+						if id := n.InsPrevID(); id != nil {
+							return id.ToTestString()
+						}
+						return "nil"
+					}())
+				}
+			}
 		}
 	}
 	return sb.String()
@@ -379,6 +395,9 @@ func updateWithPresence(d *document.Document, es []gen.Edit, pres map[string]str
 	defer func() {
 		if x := recover(); x != nil {
 			err = fmt.Errorf("PANIC: %v", x)
+			if os.Getenv("VERIF_STACK") != "" {
+				err = fmt.Errorf("PANIC: %v\n%s", x, debug.Stack())
+			}
 		}
 	}()
 	return d.Update(func(root *yjson.Object, p *presence.Presence) error {
@@ -415,4 +434,82 @@ func (w *c08Worker) Replay(data json.RawMessage) runner.CaseResult {
 	_ = json.Unmarshal(data, &rp)
 	w.run(&res, rp.Seed, rp.Idx)
 	return res
+}
+
+// textChainProblem checks the insertion chain of a Text: the pieces of one insertion that
+// still exist are linked, through insPrev, in offset order and without skipping one. A
+// position on a piece boundary is resolved through that link (findFloorNodePreferToLeft),
+// so a piece whose insPrev names anything but its nearest surviving left sibling makes every
+// edit at that boundary fail with "offset should be less than or equal to length".
+func textChainProblem(t *crdt.Text) string {
+	type piece struct {
+		off, n int
+		id     string
+		prev   string
+	}
+	by := map[string][]piece{}
+	var order []string
+	for _, n := range t.Nodes() {
+		k := n.ID().CreatedAt().Key()
+		if _, ok := by[k]; !ok {
+			order = append(order, k)
+		}
+		prev := ""
+		if id := n.InsPrevID(); id != nil {
+			prev = id.ToTestString()
+		}
+		by[k] = append(by[k], piece{off: n.ID().Offset(), id: n.ID().ToTestString(), prev: prev})
+	}
+	for _, k := range order {
+		ps := by[k]
+		sort.Slice(ps, func(i, j int) bool { return ps[i].off < ps[j].off })
+		for i, p := range ps {
+			want := ""
+			if i > 0 {
+				want = ps[i-1].id
+			}
+			if p.prev != want {
+				return fmt.Sprintf("insertion chain broken: piece %s has insPrev=%q, its nearest surviving left sibling is %q; text %s",
+					p.id, p.prev, want, t.ToTestString())
+			}
+		}
+	}
+	return ""
+}
+
+// textIndexProblem checks every Text of the document (document and working copy): the
+// index structures must agree with the node chain.
+func textIndexProblem(d *document.Document) string {
+	bad := ""
+	var walk func(e crdt.Element, which string)
+	walk = func(e crdt.Element, which string) {
+		switch v := e.(type) {
+		case *crdt.Object:
+			for _, m := range v.Members() {
+				walk(m, which)
+			}
+		case *crdt.Array:
+			for _, m := range v.Elements() {
+				walk(m, which)
+			}
+		case *crdt.Text:
+			func() {
+				defer func() {
+					if x := recover(); x != nil {
+						bad = fmt.Sprintf("%s: CheckWeight panicked: %v", which, x)
+					}
+				}()
+				if !v.CheckWeight() {
+					bad = which + ": the splay tree's weights disagree with the node chain " + v.ToTestString()
+				} else if p := textChainProblem(v); p != "" {
+					bad = which + ": " + p
+				}
+			}()
+		}
+	}
+	walk(d.RootObject(), "document")
+	if bad == "" {
+		walk(d.Root().Object, "working copy")
+	}
+	return bad
 }
